@@ -111,7 +111,7 @@ func init() {
 				}
 				if special && r.Intn(3) == 0 {
 					// ids that differ from others only by letter case, or contain characters that SQL pattern matching treats specially
-					id = fmt.Sprintf("%s%d", pick(r, "A.", "B.", "a_", "a%", `a\`, "Zz", `a.\`), i)
+					id = fmt.Sprintf("%s%d", pick(r, "A.", "B.", "a_", "a%", `a\`, "Zz", `a.\`, "a?", "a[", "a[1]", "a]"), i)
 				}
 				ids = append(ids, id)
 				var tags map[string]string
@@ -162,7 +162,10 @@ func init() {
 					q.Id = ids[r.Intn(len(ids))]
 				}
 				if special && r.Intn(2) == 0 {
-					q.Id = pick(r, "a_*", "a%*", `a\*`, "A.*", "zz*", "Zz*", "a.*", "*_*", `*\*`, "a_1", `a.\*`)
+					q.Id = pick(r, "a_*", "a%*", `a\*`, "A.*", "zz*", "Zz*", "a.*", "*_*", `*\*`, "a_1", `a.\*`, "a?*", "a[*", "*[*", "*]*")
+					if len(ids) > 0 && r.Intn(3) == 0 {
+						q.Id = ids[r.Intn(len(ids))] // exact search for an id with special characters
+					}
 				}
 				c.traverse(s, helper, q, ids)
 			}
@@ -281,6 +284,14 @@ func (c *Ctx) traverse(s *Sim, helper *apisub.API, q searchQuery, ids []string) 
 			}
 			if !ss[int(p.State)] || !wildcardMatch(q.Id, p.Id) || !tagsMatch(nzm(p.Tags), q.Tags) {
 				s.mon.violate("C14", "search:result-does-not-match", fmt.Sprintf("query %+v returned %s", q, p))
+			}
+			// "pending promises whose timeout has passed are reported in their timed-out state": a promise the
+			// search reports as timed out by the clock (completedOn = timeout, no completion key) carries the
+			// state its resonate:timeout tag asks for
+			if p.State != promise.Pending && p.CompletedOn != nil && *p.CompletedOn == p.Timeout && p.IdempotencyKeyForComplete == nil && len(p.Value.Data) == 0 && p.Timeout <= s.now {
+				if want := tmoState(nzm(p.Tags)); int(p.State) != want && (p.State == promise.Timedout || p.State == promise.Resolved) {
+					s.mon.violate("C14,C04", "search:timed-out-state", fmt.Sprintf("query %+v reports the overdue promise %s in state %s, its tags ask for state %d", q, p.Id, p.State, want))
+				}
 			}
 		}
 		if res.Cursor == nil {
